@@ -234,7 +234,7 @@ func (w *c09World) genMessage(st *c09Stream) *pb.Message {
 	if w.variant == c09HugeK {
 		m.Type = []pb.Message_MessageType{pb.Message_FIND_NODE, pb.Message_GET_PROVIDERS, pb.Message_GET_VALUE}[s.Draw("huge-type", 3)]
 	}
-	if w.variant == c09Bulk && s.Chance("bulk-get-providers", 1, 2) {
+	if (w.variant == c09Bulk || w.variant == c09Fill) && s.Chance("bulk-get-providers", 1, 2) {
 		m.Type, m.Key = pb.Message_GET_PROVIDERS, w.bigKey
 		return m
 	}
@@ -355,7 +355,7 @@ func (w *c09World) genItem(st *c09Stream) (data []byte, desc string, after int) 
 		return appendFrame(nil, c09Marshal(m)), "honest " + c09Describe(m), 0
 	}
 	kind := s.Draw("item-kind", 20)
-	if (w.variant == c09Bulk || w.variant == c09HugeK) && kind >= 13 && kind != 19 {
+	if w.heavy() && kind >= 13 && kind != 19 {
 		kind = 0
 	}
 	switch {
